@@ -510,7 +510,16 @@ def jobs_C18(tier, seed):
     C = cfg(max_request_concurrency=2, max_submission_concurrency=2, max_request_queue_size=2,
             max_submission_queue_size=2, max_io_queue_size=2)
     q = tier == 'quick'
+    # one submission thread: the second transfer's submission is queued behind the first one's
+    C1 = dict(C, max_submission_concurrency=1)
     for ci, (trs, victim) in enumerate(combos):
+        if victim == 0 and (not q or ci in (0, 1)):
+            s = scn(copy.deepcopy(trs), dict(C1), seed=seed, script='shutdown', victims=[victim],
+                    faults={'sites': ['s3:', 'stream:fatal', 'fs:write', 'src:read', 'sink:write'], 'only_key': victim})
+            jobs.append(job(f'fail shutdown subconc=1 {[t["op"] for t in trs]}', s, BD(tier)['FAULT'], want, max_execs=1000000))
+            s = scn(copy.deepcopy(trs), dict(C1), seed=seed, script='shutdown', victims=[victim],
+                    inject=[{'kind': 'cancel', 'target': victim}])
+            jobs.append(job(f'cancel shutdown subconc=1 {[t["op"] for t in trs]}', s, BD(tier)['CANCEL'], want, max_execs=1000000))
         for script in ('shutdown', 'wait', 'with'):
             deep = (script == 'shutdown' and (not q or ci in (0, 3)))
             fb = BD(tier)['FAULT'] if deep else {'env': 1, 'sched': 0}
